@@ -68,7 +68,7 @@ OrderedDictSafeLoader.add_constructor(
 
 class Parser(BaseParser):
     default_suffix = '.yaml'
-    unicode_io = False
+    unicode_io = True
 
     def parse_stream(self, stream):
         t = yaml.load(stream, Loader=OrderedDictSafeLoader)
